@@ -156,9 +156,8 @@ Section Within.
 
   Lemma half_up_double k : (k <= 2 * half_up k)%nat.
   Proof.
-    unfold half_up. destruct (Nat.Even_or_Odd (S k)) as [[m E]|[m E]].
-    - rewrite E, Nat.div2_double. lia.
-    - replace (2 * m + 1)%nat with (S (2 * m)) in E by lia. rewrite E, Nat.div2_succ_double. lia.
+    unfold half_up. pose proof (Nat.div_mod (S k) 2 ltac:(lia)) as D.
+    pose proof (Nat.mod_upper_bound (S k) 2 ltac:(lia)). lia.
   Qed.
 
   Lemma within_sqrt k a a' : 0 <= a -> W k a a' -> W (half_up k) (sqrt a) (sqrt a').
